@@ -230,7 +230,10 @@ def handle (op : String) (args : List String) (impl : String) : Option Verdict :
         | _, _ => false
       | _ => false
     return ⟨model, ok, s!"filter:n={min ds.length 4}:emitted={min out.length 3}:faultfree={faultFree s}:withheld={decide (out.length < (eligible m (isMatch res dest) ds).length)}"⟩
-  | "retryv1", [deps, sts, faults] => some <| Id.run do
+  | "retryv1", [deps0, sts, faults] => some <| Id.run do
+    -- '+' separates the retried transactions of the handled range: their deposits are handled one after the other and
+    -- the messages of ALL of them are sent, grouped by destination (an empty transaction is written `-`)
+    let deps := joinOr (((deps0.splitOn "+").filter (· ≠ "-")).map fun e => e) ","
     let some ds := parseDeps deps | return bad
     let some sts := (chars sts).mapM statusOf | return bad
     let some fl := bits faults | return bad
@@ -263,7 +266,7 @@ def handle (op : String) (args : List String) (impl : String) : Option Verdict :
           decide (P17 m s.faults mt ds merged m')
         | _, _ => false
       | _ => false
-    return ⟨model, ok, s!"retryv1:n={min ds.length 4}:groups={min (byDest out).length 3}:faultfree={faultFree s}:unhandled={min bads.length 2}"⟩
+    return ⟨model, ok, s!"retryv1:n={min ds.length 4}:groups={min (byDest out).length 3}:faultfree={faultFree s}:unhandled={min bads.length 2}:txs={min (deps0.splitOn "+").length 3}"⟩
   | "handler", [kind, latest, height, conf, deps, res, dest, sts, faults] => some <| Id.run do
     let some latest := latest.toNat? | return bad
     let some height := height.toNat? | return bad
